@@ -400,8 +400,10 @@ impl<'a> Builder<'a> {
                 let (tx, src) = ChannelSource::<E>::new(4);
                 let bursts = bursts.clone();
                 let grace_us = self.sc.client_grace_us;
+                let until_failure = self.sc.stream_until_failure;
                 if self.host == 0 {
                     self.clients.push(Box::new(move || {
+                        let mut last = None;
                         for (pause_us, burst) in bursts {
                             if pause_us > 0 {
                                 simrt::rt::sleep_local(pause_us * 1000);
@@ -412,7 +414,37 @@ impl<'a> Builder<'a> {
                                 rec::with(|r| {
                                     r.marks.entry((9000, (0, 0, 0))).or_default().push((id, t0 as i64, 0))
                                 });
+                                last = Some(e.clone());
                                 if tx.send(e).is_err() {
+                                    return;
+                                }
+                            }
+                        }
+                        if until_failure {
+                            // an endless stream, as far as the job can tell: one more element every
+                            // 2 ms until a host reports the failure. 300 elements (0.6 s) after
+                            // the injected panic without any report: give up and say so
+                            let mut template = last.unwrap_or_else(|| E::new(1, 0, 1));
+                            let mut after_crash = 0u64;
+                            for k in 0..2000u64 {
+                                let (failed, fired) = rec::with(|r| (r.exec_done.iter().any(|d| d.1), r.crash_fired));
+                                if failed {
+                                    break;
+                                }
+                                if fired {
+                                    after_crash += 1;
+                                    if after_crash > 300 {
+                                        rec::with(|r| r.stream_gave_up = Some(after_crash));
+                                        break;
+                                    }
+                                } else if k > 600 {
+                                    // the site is never reached on this schedule
+                                    break;
+                                }
+                                template.id = crate::elem::mix(0x57EA, k);
+                                template.key = (k % 7) as u16;
+                                simrt::rt::sleep_local(2_000_000);
+                                if tx.send(template.clone()).is_err() {
                                     return;
                                 }
                             }
